@@ -163,6 +163,7 @@ type FuncDecl struct {
 type Reg struct {
 	seqElems  map[string]bool
 	seqOrder  []string
+	cardOrd   []string // key sorts for which len(map) is used
 	structs   map[string]*StructInfo
 	structOrd []string
 	structByT map[string]string // types string -> sort
@@ -328,6 +329,17 @@ func (r *Reg) MapArrays(k, v string) (dom, val string) {
 	r.declHeap(dom, "Int", "(Array "+k+" Bool)")
 	r.declHeap(val, "Int", "(Array "+k+" "+v+")")
 	return
+}
+
+// MapCard registers the cardinality function of map domains with key sort k (len of a map) and returns its name.
+func (r *Reg) MapCard(k string) string {
+	for _, c := range r.cardOrd {
+		if c == k {
+			return "mapcard_" + sortId(k)
+		}
+	}
+	r.cardOrd = append(r.cardOrd, k)
+	return "mapcard_" + sortId(k)
 }
 
 func (r *Reg) declHeap(name, idx, elem string) {
@@ -586,6 +598,15 @@ func (r *Reg) Prelude() string {
 	}
 	for _, s := range r.structOrd {
 		emitSort(s)
+	}
+	// cardinality of map domains (len of a map): non-negative, zero exactly for the empty domain, +1 for a new key
+	for _, k := range r.cardOrd {
+		emitSort(k)
+		id := sortId(k)
+		fmt.Fprintf(&sb, "(declare-fun mapcard_%s ((Array %s Bool)) Int)\n(declare-fun mapwit_%s ((Array %s Bool)) %s)\n", id, k, id, k, k)
+		fmt.Fprintf(&sb, "(assert (forall ((d (Array %s Bool))) (! (and (>= (mapcard_%s d) 0) (=> (> (mapcard_%s d) 0) (select d (mapwit_%s d)))) :pattern ((mapcard_%s d)))))\n", k, id, id, id, id)
+		fmt.Fprintf(&sb, "(assert (forall ((d (Array %s Bool)) (k %s)) (! (=> (select d k) (> (mapcard_%s d) 0)) :pattern ((select d k) (mapcard_%s d)))))\n", k, k, id, id)
+		fmt.Fprintf(&sb, "(assert (forall ((d (Array %s Bool)) (k %s)) (! (= (mapcard_%s (store d k true)) (+ (mapcard_%s d) (ite (select d k) 0 1))) :pattern ((mapcard_%s (store d k true))))))\n", k, k, id, id, id)
 	}
 	// box functions
 	for _, s := range r.boxOrd {
